@@ -65,7 +65,9 @@ impl<'a> UnixSendTo<'a> {
 
 impl EventSource for UnixSendTo<'_> {
     fn subscribe(&mut self, co: CoroutineImpl) {
-        let io_data = self.io_data;
+        // keep the event data alive: once the coroutine is stored another thread can resume
+        // it and the io object (even the coroutine) may be gone before we are done here
+        let io_data = (*self.io_data).clone();
 
         #[cfg(feature = "io_timeout")]
         if let Some(dur) = self.timeout {
